@@ -26,6 +26,7 @@ def run(ctx):
     ctx.tlc("LifecycleMC", "Lifecycle_mc_alias.cfg", expect_violation=True)    # clone() reuses the page slice (Go append aliasing)
     sel = ctx.tlc("PageSelectMC", "PageSelect_gen.cfg" if q else "PageSelect_gen_thorough.cfg", workers=1, collect=True, timeout=1800)
     selo = ctx.tlc("PageSelectMC", "PageSelect_gen_opts.cfg", workers=1, collect=True, timeout=1800)
+    selr = ctx.tlc("PageSelectMC", "PageSelect_gen_rep.cfg", workers=1, collect=True, timeout=1800)
     life = ctx.tlc("LifecycleMC", "Lifecycle_gen.cfg" if q else "Lifecycle_gen_thorough.cfg", workers=1, collect=True, count=False, timeout=1800)
     # every history of three operations with every public operation by name (15 terminal, 3 non-terminal ones)
     via = ctx.tlc("LifecycleMC", "Lifecycle_gen_via.cfg", workers=1, collect=True, count=False, timeout=1800)
@@ -42,7 +43,8 @@ def run(ctx):
     # the option-only histories again on a document of every other format (descriptor accounting, no panic)
     r1 += absorb(ctx, ctx.run_driver(["c10", "lifefmt"], life["cases"] + (via["cases"][::7] if q else via["cases"])))
     ctx.extra["selection_cases_under_options"] = len(selo["cases"])
-    r1 += absorb(ctx, ctx.run_driver(["c10", "selectopts"], selo["cases"]))
+    ctx.extra["selection_cases_repeated_by_operation"] = len(selr["cases"])
+    r1 += absorb(ctx, ctx.run_driver(["c10", "selectopts"], selo["cases"] + selr["cases"]))
     mach = [r for r in r1 + r2 if (r.get("sig") or "").startswith("MACHINERY")]
     if mach:
         raise vlib.MachineryError(mach[0]["what"])
